@@ -221,6 +221,10 @@ def judge(run: Run, res, gen: str) -> None:
             seg = end_text[b[4] : a[4]] if a[3] == b[3] and a[4] is not None and b[4] is not None and a[4] > b[4] else ""
             semi = bool(seg) and ";" in seg and not seg.strip(" \t;")
             paren = bool(seg) and ")" in seg and not seg.strip(" \t)")
+            if not zero_width_default and any(ord(ch) > 127 for ch in end_text):
+                # byte offsets (default parser) vs character offsets (native parser): same root cause as for start columns
+                report("tuple|position-differs|non-ascii-line", case, "end columns differ on a line with non-ASCII characters: default %s, native %s" % (a, b))
+                break
             sg = "end-position|default-parser-zero-width" if zero_width_default else ("end-position|trailing-semicolon" if semi else ("end-position|closing-parenthesis-of-last-operand" if paren else "end-position|other|%s" % (a[7] or "nocode")))
             report(sg, case, "end position differs: default %s, native %s" % (a, b))
             break
